@@ -86,6 +86,7 @@ def t06_pua(run, fx):
 def check(run, fx, tier, floors=True):
     import speclayout
     speclayout.rule_layouts(run, fx, "T06-LAYOUT", ["cmap"], floors)
+    speclayout.rule_records(run, fx, "T06-REC", ['cmap'], floors)
     macroman(run, fx, floors)
     if fx.body("font::find_good_cmap_subtable") is not None or floors:
         t06_pref(run, fx)
